@@ -47,6 +47,21 @@ CfgsIntrospect == {[BaseCfg EXCEPT !.at = a, !.no_rt_intro = n, !.l_at = 1] : a 
 CfgsDevice == {[BaseCfg EXCEPT !.store = s, !.rscopes = rs] : s \in {"mem", "contract"}, rs \in {<<>>, <<"offline">>}}
 CfgsPar == {[BaseCfg EXCEPT !.par_enf = e] : e \in BOOLEAN}
 
+(* "copy": a store that copies requests on the way in and out and loads the client's current registration on read (what
+   every store that serialises requests does); the specification does not distinguish it from the reference store.
+   The simulated histories run under both. *)
+WithCopy(S) == S \cup {[c EXCEPT !.store = "copy"] : c \in {x \in S : x.store = "mem"}}
+CfgsOneC == WithCopy(CfgsOne)
+CfgsRSC == WithCopy(CfgsRS)
+CfgsRSBC == WithCopy(CfgsRSB)
+CfgsStrategiesC == WithCopy(CfgsStrategies)
+CfgsRefreshC == WithCopy(CfgsRefresh)
+CfgsPkceC == WithCopy(CfgsPkce)
+CfgsExpiryC == WithCopy(CfgsExpiry)
+CfgsIntrospectC == WithCopy(CfgsIntrospect)
+CfgsDeviceC == WithCopy(CfgsDevice)
+CfgsParC == WithCopy(CfgsPar)
+
 \* only credentials that were handed to somebody can be presented
 Codes == {x \in DOMAIN st.S.code : st.S.code[x].dl}
 ATs == {x \in DOMAIN st.S.at : st.S.at[x].dl}
